@@ -243,9 +243,16 @@ NoDefaultKey(i, k) == \A j \in i..(i + k - 1) : \A m \in 1..Len(stack[j].b) : st
 \* ({{{1}}},{{{2| d }}},{{{x}}}) shows every binding a call makes, with the whitespace it carries
 EchoBody == <<Text(<<"(">>), Param(<<"1">>), Text(<<",">>), ParamD(<<"2">>, <<Text(<<SP, "d", SP>>)>>), Text(<<",">>), Param(<<"x">>), Text(<<")">>)>>
 
-\* every tagged item (named argument, switch case) still needs a constructor to absorb it
-Pending == Cardinality({j \in 1..Len(stack) : stack[j].tag # ""})
-CanBuild == ops > Pending        \* a constructor that absorbs no tagged item may be spent
+\* tagged items (named arguments, switch cases) still need constructors to absorb them: one
+\* #switch per run of case items, one call per three adjacent named arguments
+RunStart(st, j, tag) == IF \E m \in 1..(j - 1) : st[m].tag # tag
+                        THEN (CHOOSE m \in 1..(j - 1) : st[m].tag # tag /\ \A o \in (m + 1)..(j - 1) : st[o].tag = tag) + 1
+                        ELSE 1
+PendingOf(st) == Cardinality({j \in 1..Len(st) : st[j].tag = "case" /\ RunStart(st, j, "case") = j})
+                 + Cardinality({j \in 1..Len(st) : st[j].tag = "arg" /\ (j - RunStart(st, j, "arg")) % 3 = 0})
+Pending == PendingOf(stack)
+\* every action keeps enough constructors in reserve to absorb what is pending afterwards
+Affordable == ops' >= PendingOf(stack')
 
 Init == /\ univ = IF Preset = "echo" THEN <<EchoBody>> ELSE <<>>
         /\ stack = <<>>
@@ -263,28 +270,33 @@ Cat == /\ ~Done
             /\ stack' = Replace(i, 2, Item(stack[i].b \o stack[i + 1].b, MaxD(i, 2)))
        /\ UNCHANGED <<univ, fuel, ops, feat>>
 
-MkParamD == /\ ~Done /\ CanBuild /\ ops' = ops - 1
+MkParamD == /\ ~Done /\ ops > 0 /\ ops' = ops - 1
             /\ \E i \in Positions(1), n \in Names :
                  /\ Plain(i, 1) /\ NoDefaultKey(i, 1) /\ stack[i].d < MaxDepth
                  /\ stack' = Replace(i, 1, Item(<<ParamD(n, stack[i].b)>>, stack[i].d + 1))
-            /\ UNCHANGED <<univ, fuel, feat>>
+            /\ Affordable /\ UNCHANGED <<univ, fuel, feat>>
 
-MkIf == /\ ~Done /\ CanBuild /\ ops' = ops - 1
+MkIf == /\ ~Done /\ ops > 0 /\ ops' = ops - 1
         /\ \E k \in {2, 3} : \E i \in Positions(k) :
              /\ Plain(i, k) /\ NoDefaultKey(i, k) /\ MaxD(i, k) < MaxDepth
              /\ stack' = Replace(i, k, Item(<<IfN(stack[i].b, stack[i + 1].b, IF k = 3 THEN stack[i + 2].b ELSE <<>>, k)>>, MaxD(i, k) + 1))
-        /\ UNCHANGED <<univ, fuel, feat>>
+        /\ Affordable /\ UNCHANGED <<univ, fuel, feat>>
 
-MkIfEq == /\ ~Done /\ CanBuild /\ ops' = ops - 1
+MkIfEq == /\ ~Done /\ ops > 0 /\ ops' = ops - 1
           /\ \E k \in {3, 4} : \E i \in Positions(k) :
                /\ Plain(i, k) /\ NoDefaultKey(i, k) /\ MaxD(i, k) < MaxDepth
                /\ stack' = Replace(i, k, Item(<<IfEqN(stack[i].b, stack[i + 1].b, stack[i + 2].b,
                                                         IF k = 4 THEN stack[i + 3].b ELSE <<>>, k)>>, MaxD(i, k) + 1))
-          /\ UNCHANGED <<univ, fuel, feat>>
+          /\ Affordable /\ UNCHANGED <<univ, fuel, feat>>
 
 \* a switch is assembled from case items: key=value (2 bodies), key alone (1 body); a run of case
 \* items is always headed by a plain body (the switch value), so that it can be absorbed
 Headed(i) == IF i = 1 THEN FALSE ELSE stack[i - 1].tag \in {"", "case"}
+\* a #switch takes at most three cases: a run of case items never grows beyond that
+RECURSIVE CasesBefore(_), CasesAfter(_)
+CasesBefore(i) == IF i >= 1 /\ stack[i].tag = "case" THEN 1 + CasesBefore(i - 1) ELSE 0
+CasesAfter(i)  == IF i <= Len(stack) /\ stack[i].tag = "case" THEN 1 + CasesAfter(i + 1) ELSE 0
+RoomForCase(i, k) == CasesBefore(i - 1) + CasesAfter(i + k) <= 2
 FollowedByCase(i, k) == IF i + k > Len(stack) THEN FALSE ELSE stack[i + k].tag = "case"
 IsDefaultCase(c) == c.key = <<Text(DefaultKey)>>
 PlainBody(b) == \A i \in 1..Len(b) : b[i].k = "text"
@@ -298,16 +310,18 @@ BoundName(args, j) == IF args[j].name = <<>>
                       THEN PosName(Cardinality({m \in 1..j : args[m].name = <<>>}))
                       ELSE Strip(args[j].name)
 DupArgs(args) == \E i, j \in 1..Len(args) : i < j /\ BoundName(args, i) = BoundName(args, j)
-MkCase == /\ ~Done /\ CanBuild
+MkCase == /\ ~Done
           /\ \/ \E i \in Positions(2) :
-                  /\ Plain(i, 2) /\ NoDefaultKey(i + 1, 1) /\ Headed(i)
+                  /\ Plain(i, 2) /\ NoDefaultKey(i + 1, 1) /\ Headed(i) /\ RoomForCase(i, 2)
                   /\ (IF stack[i].b = <<Text(DefaultKey)>> THEN TRUE ELSE NoDefaultKey(i, 1))
                   /\ stack' = Replace(i, 2, CaseItem([key |-> stack[i].b, hasval |-> TRUE, val |-> stack[i + 1].b], MaxD(i, 2)))
+                  /\ feat' = IF Ser(stack[i].b, 0) = <<>> /\ Ser(stack[i + 1].b, 0) = <<>> THEN feat \cup {"emptycase"} ELSE feat   \* "|="
              \/ \E i \in Positions(1) :
-                  /\ Plain(i, 1) /\ Headed(i)
+                  /\ Plain(i, 1) /\ Headed(i) /\ RoomForCase(i, 1)
                   /\ (IF stack[i].b = <<Text(DefaultKey)>> THEN TRUE ELSE NoDefaultKey(i, 1))
                   /\ stack' = Replace(i, 1, CaseItem([key |-> stack[i].b, hasval |-> FALSE, val |-> <<>>], stack[i].d))
-          /\ UNCHANGED <<univ, fuel, ops, feat>>
+                  /\ UNCHANGED feat
+          /\ ops' = ops /\ Affordable /\ UNCHANGED <<univ, fuel>>
 
 CasesAt(i, k) == [j \in 1..k |-> stack[i + j - 1].x]
 \* value body followed by k case items; without a value body in front the switch tests the empty string
@@ -320,34 +334,33 @@ MkSwitch == /\ ~Done /\ ops > 0 /\ ops' = ops - 1
                  /\ (AllowNumDup \/ ~NumDupKeys(CasesAt(i + 1, k)))
                  /\ stack' = Replace(i, k + 1, Item(<<SwitchN(stack[i].b, CasesAt(i + 1, k))>>, MaxD(i, k + 1) + 1))
                  /\ feat' = IF NumDupKeys(CasesAt(i + 1, k)) THEN feat \cup {"numdupkeys"} ELSE feat
-            /\ UNCHANGED <<univ, fuel>>
+            /\ Affordable /\ UNCHANGED <<univ, fuel>>
 
 \* a template that does not exist (T0) can only be called while no template exists yet
 Callable == IF univ = <<>> THEN (IF NT = 0 THEN {} ELSE {0}) ELSE 1..Len(univ)
 \* a named argument is a tagged body; untagged bodies are positional arguments
-TagArg == /\ ~Done /\ CanBuild /\ Callable # {}
+TagArg == /\ ~Done /\ Callable # {}
           /\ \E i \in Positions(1), n \in Names :
                /\ Plain(i, 1) /\ NoDefaultKey(i, 1) /\ ~FollowedByCase(i, 1)
                /\ stack' = Replace(i, 1, ArgItem(stack[i].b, stack[i].d, n))
-          /\ UNCHANGED <<univ, fuel, ops, feat>>
+          /\ ops' = ops /\ Affordable /\ UNCHANGED <<univ, fuel, feat>>
 
 ArgsAt(i, k) == [j \in 1..k |-> [name |-> stack[i + j - 1].x, val |-> stack[i + j - 1].b]]
 MkCall == /\ ~Done /\ ops > 0 /\ ops' = ops - 1
           /\ \E k \in 0..3 : \E t \in Callable :
                IF k = 0
-               THEN /\ fuel > 0 /\ CanBuild
+               THEN /\ fuel > 0
                     /\ stack' = Append(stack, Item(<<Call(t, <<>>)>>, 1))
                     /\ fuel' = fuel - 1
                     /\ UNCHANGED feat
                ELSE \E i \in Positions(k) :
                       /\ \A j \in i..(i + k - 1) : stack[j].tag \in {"", "arg"}
-                      /\ (IF \E j \in i..(i + k - 1) : stack[j].tag = "arg" THEN TRUE ELSE CanBuild)
                       /\ NoDefaultKey(i, k) /\ MaxD(i, k) < MaxDepth
                       /\ (AllowDup \/ ~DupArgs(ArgsAt(i, k)))
                       /\ stack' = Replace(i, k, Item(<<Call(t, ArgsAt(i, k))>>, MaxD(i, k) + 1))
                       /\ feat' = IF DupArgs(ArgsAt(i, k)) THEN feat \cup {"dupbind"} ELSE feat
                       /\ UNCHANGED fuel
-          /\ UNCHANGED univ
+          /\ Affordable /\ UNCHANGED univ
 
 Finish == /\ ~Done /\ Len(stack) = 1 /\ Plain(1, 1) /\ NoDefaultKey(1, 1)
           /\ univ' = Append(univ, stack[1].b)
